@@ -186,6 +186,9 @@ def c19(tier, seed):
         GEN("Gen_Flags", dict(gc, MaxArgs=3), "flags", label="Gen_Flags/sequences", min_cases=10000),
         TRACE("Trace_Flags", "flags", n=2000 if q else 40000, label="Trace_Flags/random-sequences",
               trace_file="trace_flags.ndjson"),
+        # the FILE flag: sequences of files (two loaders by extension, optional default loader, malformed and loader-less files)
+        MC("Gen_FlagFiles", dict(MaxArgs=2, Groups="={}"), invariants=["IsFold"], properties=["Sticky"], label="MC_FlagFiles/fold"),
+        GEN("Gen_FlagFiles", dict(MaxArgs=2 if q else 3), "flagfiles", gen_family="flags", label="Gen_FlagFiles/sequences", min_cases=300),
     ]
 
 
@@ -245,24 +248,25 @@ def c03(tier, seed):
     ]
 
 
-def reify_stages(inv, refute):
-    st = [MC("Gen_Reify", dict(Groups="={}"), invariants=inv, label="MC_Reify/ideal")]
+def reify_stages(inv, refute, tier="quick"):
+    deep = dict(Deep=(tier != "quick"))
+    st = [MC("Gen_Reify", dict(deep, Groups="={}"), invariants=inv, label="MC_Reify/ideal")]
     for dev, i in refute:
-        st.append(MC("Gen_Reify", dict(Groups='={{"%s"}}' % dev), invariants=i, expect_violation=True,
+        st.append(MC("Gen_Reify", dict(Deep=False, Groups='={{"%s"}}' % dev), invariants=i, expect_violation=True,
                      label="MC_Reify/refute-" + dev))
-    st.append(GEN("Gen_Reify", {}, "reify", label="Gen_Reify/types-x-validators-x-configs", min_cases=20000))
+    st.append(GEN("Gen_Reify", deep, "reify", label="Gen_Reify/types-x-validators-x-configs", min_cases=20000))
     return st
 
 
 def c04(tier, seed):
-    return reify_stages(["OkIsValid"], [("PtrDefaultSkipsRange", ["OkIsValid"]), ("UncheckedCarriedOver", ["OkIsValid"])]) + [
+    return reify_stages(["OkIsValid"], [("PtrDefaultSkipsRange", ["OkIsValid"]), ("UncheckedCarriedOver", ["OkIsValid"])], tier) + [
         MC("Gen_Validators", dict(Groups="={}"), invariants=["OkIsValid", "BreakFails"], label="MC_Validators/table"),
         GEN("Gen_Validators", {}, "validators", label="Gen_Validators/kinds-x-tags-x-defaults-x-settings", min_cases=4000),
     ]
 
 
 def c13(tier, seed):
-    return reify_stages(["Frame"], []) + [
+    return reify_stages(["Frame"], [], tier) + [
         # which merge policy is ACTIVE for a list: global option vs. struct tags at two levels (a tag wins, also `merge`)
         MC("Gen_TagPol", dict(Groups="={}"), invariants=["TagWins"], label="MC_TagPol/active-policy"),
         GEN("Gen_TagPol", {}, "tagpol", label="Gen_TagPol/global-x-tags-x-lists", min_cases=500),
@@ -270,7 +274,7 @@ def c13(tier, seed):
 
 
 def c14(tier, seed):
-    return reify_stages(["ErrNamesSetting"], [("DefaultErrPathNotNested", ["ErrNamesSetting"]), ("MapElemUnaddressable", ["ErrNamesSetting"])]) + [
+    return reify_stages(["ErrNamesSetting"], [("DefaultErrPathNotNested", ["ErrNamesSetting"]), ("MapElemUnaddressable", ["ErrNamesSetting"])], tier) + [
         MC("Gen_Faults", dict(Groups="={}"), invariants=["SitesExist"], label="MC_Faults/sites"),
         GEN("Gen_Faults", {}, "faults", label="Gen_Faults/types-x-sites-x-fault-kinds", min_cases=20000),
         pack_trace(tier),
